@@ -31,7 +31,7 @@ ENGINE = "direct"
 TECHNIQUE = "round-trip + differential against a reference RFC 1035 codec + totality fuzzing with crafted compression"
 BUDGET = {"quick": (9_000, 12), "thorough": (1_500_000, 170)}
 WORKERS = {"quick": 2, "thorough": 16}
-REQUIRED = ["a.packed_ok", "a.roundtrip_equal", "a.ref_decode_agrees", "b.total", "b.decoded", "b.parse_error", "c.repack_ok", "c.reunpack_equal"]
+REQUIRED = ["a.rdata_name_overrun_followed_by_records", "a.packed_ok", "a.roundtrip_equal", "a.ref_decode_agrees", "b.total", "b.decoded", "b.parse_error", "c.repack_ok", "c.reunpack_equal"]
 RULE = (
     "case kinds: 35% clause (a) generated well-formed messages (names from ASCII/odd-ASCII/IDN label pools, 63-octet labels, "
     "root, names up to 255 octets; types incl. all name-bearing ones and random; TTLs at 0/2^31/2^32-1; RDATA empty, typed, random, "
@@ -147,6 +147,13 @@ def all_names(m):
 def scanned_pointerish(m) -> bool:
     """Some record of a type whose RDATA mitmproxy scans for compression pointers holds an octet >= 0xC0."""
     return any(r.type in G.MITM_COMPRESSIBLE and any(b >= 0xC0 for b in r.data) for r in all_rrs(m))
+
+
+def record_pointerish(m, path: str) -> bool:
+    """The record named by a diff path like 'answers[2].data' is of a scanned type and holds an octet >= 0xC0."""
+    sec, _, rest = path.partition("[")
+    rec = getattr(m, sec)[int(rest.split("]")[0])]
+    return rec.type in G.MITM_COMPRESSIBLE and any(b >= 0xC0 for b in rec.data)
 
 
 def label_is_canonical(part: str) -> bool:
@@ -346,7 +353,11 @@ def classify_c(buf: bytes, m: DNSMessage, what: str):
 # ---- clause (a) --------------------------------------------------------------------------------------------------------------
 
 def clause_a(ctx, r):
-    fields, feats = G.gen_wellformed(r)
+    if r.random() < 0.08:
+        fields, feats = G.gen_overrun_message(r)
+        ctx.count("a.rdata_name_overrun_followed_by_records")
+    else:
+        fields, feats = G.gen_wellformed(r)
     m = build(fields)
     outcome = "ok"
     nrec = len(fields["questions"]) + sum(len(s) for s in fields["sections"])
@@ -369,7 +380,7 @@ def clause_a(ctx, r):
         d = diff(m, back)
         if d is not None:
             outcome = "roundtrip-differs"
-            mech = "pointer-like-octets-in-scanned-rdata" if d[0].endswith(".data") and scanned_pointerish(m) else None
+            mech = "pointer-like-octets-in-scanned-rdata" if d[0].endswith(".data") and record_pointerish(m, d[0]) else None
             ctx.violation("a:roundtrip-differs", wit(packed=packed[:600], field=d[0], before=d[1], after=d[2]), mechanism=mech)
     # independent reading of the produced bytes
     ctx.count("a.ref_decode_agrees")
